@@ -74,6 +74,10 @@ type verifC14Pool struct {
 
 	trackStarts bool         // fs: a successful StartContainer makes the container "running"
 	started     map[int]bool // … and is remembered
+
+	notify      chan struct{} // rs: what Subscribe() returns
+	nCount      int           // rs: CountWorkers calls so far
+	nUnalloc    int           // rs: Unallocated calls so far (runQueue has begun)
 }
 
 func (p *verifC14Pool) next() bool {
@@ -102,6 +106,7 @@ func (p *verifC14Pool) Running() map[string]time.Time {
 func (p *verifC14Pool) Unallocated() map[arvados.InstanceType]int {
 	p.Lock()
 	defer p.Unlock()
+	p.nUnalloc++
 	r := map[arvados.InstanceType]int{}
 	for k, v := range p.unalloc {
 		r[k] = v
@@ -109,6 +114,9 @@ func (p *verifC14Pool) Unallocated() map[arvados.InstanceType]int {
 	return r
 }
 func (p *verifC14Pool) CountWorkers() map[worker.State]int {
+	p.Lock()
+	defer p.Unlock()
+	p.nCount++
 	r := map[worker.State]int{worker.StateIdle: 1}
 	if p.anyUnknown {
 		r[worker.StateUnknown] = 1
@@ -167,7 +175,7 @@ func (p *verifC14Pool) ForgetContainer(uuid string) {
 	n := verifC14UUIDNum(uuid)
 	p.effects[n] = append(p.effects[n], fmt.Sprintf("pf%d", n))
 }
-func (p *verifC14Pool) Subscribe() <-chan struct{}  { return nil }
+func (p *verifC14Pool) Subscribe() <-chan struct{}  { return p.notify }
 func (p *verifC14Pool) Unsubscribe(<-chan struct{}) {}
 
 // recording wrapper around test.Queue. Calls are appended to the pool's lists so that there is one
@@ -217,7 +225,11 @@ func (q *verifC14Queue) Unlock(uuid string) error {
 		q.rec(uuid, "qu")
 	} else {
 		q.p.Lock()
-		q.p.calls = append(q.p.calls, fmt.Sprintf("qu%d", verifC14UUIDNum(uuid)))
+		tag := "qu"
+		if q.p.notify != nil && q.p.nUnalloc == 0 {
+			tag = "fu" // rs: unlocked by fixStaleLocks (no runQueue pass has begun yet)
+		}
+		q.p.calls = append(q.p.calls, fmt.Sprintf("%s%d", tag, verifC14UUIDNum(uuid)))
 		q.p.Unlock()
 	}
 	return q.Queue.Unlock(uuid)
@@ -469,6 +481,138 @@ func verifC14Fs(f []string) string {
 	return out + ";double=" + verifC14Join(ds)
 }
 
+// rs: the real Scheduler.run() after a dispatcher restart. The pool has one Unknown instance that
+// hosts the processes `hidden` (not in Running() yet) and at least one Locked container is stale, so
+// fixStaleLocks must wait; the driver holds it there (it controls the pool's notification channel),
+// watches for 150 ms that the scheduler makes no scheduling call, then lets the pool "finish
+// probing" (no Unknown worker, Running() now reports `hidden`), and drives three passes.
+func verifC14Rs(f []string) string {
+	q, err := verifC14BuildQueue(f[1])
+	if err != nil {
+		return "bad-op"
+	}
+	p := &verifC14Pool{running: map[string]time.Time{}, unalloc: map[arvados.InstanceType]int{}, effects: map[int][]string{},
+		notify: make(chan struct{}, 1), anyUnknown: true, trackStarts: true}
+	for _, u := range verifC14Split(f[2]) {
+		n, err := strconv.Atoi(u)
+		if err != nil {
+			return "bad-op"
+		}
+		p.running[test.ContainerUUID(n)] = time.Time{}
+	}
+	hidden := map[int]bool{}
+	for _, u := range verifC14Split(f[3]) {
+		n, err := strconv.Atoi(u)
+		if err != nil {
+			return "bad-op"
+		}
+		hidden[n] = true
+	}
+	for _, tn := range verifC14Split(f[4]) {
+		kv := strings.Split(tn, ":")
+		if len(kv) != 2 {
+			return "bad-op"
+		}
+		t, err1 := strconv.Atoi(kv[0])
+		n, err2 := strconv.Atoi(kv[1])
+		if err1 != nil || err2 != nil {
+			return "bad-op"
+		}
+		p.unalloc[test.InstanceType(t)] = n
+	}
+	if f[5] != "-" {
+		for _, c := range f[5] {
+			if c != '0' && c != '1' {
+				return "bad-op"
+			}
+			p.script = append(p.script, c == '1')
+		}
+	}
+	wq := &verifC14Queue{Queue: q, p: p, updated: verifC14Base}
+	ctx := ctxlog.Context(context.Background(), verifC14Logger)
+	sch := New(ctx, wq, p, nil, time.Hour, time.Hour)
+	count := func() int {
+		p.Lock()
+		defer p.Unlock()
+		return p.nCount
+	}
+	waitCount := func(n int) bool {
+		deadline := time.Now().Add(5 * time.Second)
+		for count() < n {
+			if time.Now().After(deadline) {
+				return false
+			}
+			time.Sleep(50 * time.Microsecond)
+		}
+		return true
+	}
+	sch.Start()
+	defer sch.Stop()
+	// fixStaleLocks' first iteration has called CountWorkers; it then finds the stale lock and waits
+	if !waitCount(1) {
+		return "scheduler-did-not-start"
+	}
+	time.Sleep(150 * time.Millisecond)
+	p.Lock()
+	early := append([]string(nil), p.calls...)
+	for _, k := range verifC14SortedKeys(p.effects) {
+		early = append(early, p.effects[k]...)
+	}
+	n0 := p.nCount
+	// the pool has probed everything
+	p.anyUnknown = false
+	for u := range hidden {
+		p.running[test.ContainerUUID(u)] = time.Time{}
+	}
+	p.Unlock()
+	// wake fixStaleLocks (or, if the scheduler did not wait, its main loop), then drive passes
+	for pass := 1; pass <= 3; pass++ {
+		select {
+		case p.notify <- struct{}{}:
+		default:
+		}
+		if !waitCount(n0 + pass) {
+			break
+		}
+		base := verifC14Quiesce()
+		verifC14Settle(sch, p, base+1000)
+	}
+	p.Lock()
+	var unl []int
+	for _, c := range p.calls {
+		if strings.HasPrefix(c, "fu") {
+			n, _ := strconv.Atoi(c[2:])
+			unl = append(unl, n)
+		}
+	}
+	var dbl []int
+	for u := range p.started {
+		if hidden[u] {
+			dbl = append(dbl, u)
+		}
+	}
+	p.Unlock()
+	sort.Ints(unl)
+	sort.Ints(dbl)
+	toS := func(pre string, xs []int) []string {
+		var r []string
+		for _, x := range xs {
+			r = append(r, pre+strconv.Itoa(x))
+		}
+		return r
+	}
+	return "early=" + verifC14Join(early) + ";unl=" + verifC14Join(toS("qu", unl)) + ";double=" + verifC14Join(toS("", dbl))
+}
+
+func verifC14SortedKeys(m map[int][]string) []int {
+	var ks []int
+	for k := range m {
+		ks = append(ks, k)
+	}
+	sort.Ints(ks)
+	return ks
+}
+
 func verifC14Case(line string) (out string) {
 	defer func() {
 		if r := recover(); r != nil {
@@ -599,6 +743,8 @@ func verifC14Case(line string) (out string) {
 		return verifC14Join(calls) + ";" + verifC14Effects(p)
 	case f[0] == "fs" && len(f) == 7:
 		return verifC14Fs(f)
+	case f[0] == "rs" && len(f) == 6:
+		return verifC14Rs(f)
 	case f[0] == "la" && len(f) == 2:
 		p := &verifC14Pool{effects: map[int][]string{}}
 		sch := verifC14NewSched(&verifC14Queue{Queue: &test.Queue{ChooseType: verifC14ChooseType}, p: p}, p)
